@@ -235,7 +235,10 @@ fn through_foca(ctx: &Ctx, case: u64, acc: &mut Acc) -> Verdict {
     let kind = if case % 2 == 0 { 8 } else { 6 };
     let sub = case / 6;
     let sweep_case = codec + 5 * (kind + 11 * sub);
-    match crate::work::sweep::sweep_case(ctx, sweep_case, acc, crate::mon::Arm::only("C07")) {
+    crate::work::sweep::PANIC_IS_VERDICT.with(|p| p.set(true));
+    let r = crate::work::sweep::sweep_case(ctx, sweep_case, acc, crate::mon::Arm::only("C07"));
+    crate::work::sweep::PANIC_IS_VERDICT.with(|p| p.set(false));
+    match r {
         Ok(()) => Ok(()),
         Err(v) => Err(V::new(&v.rule.replace("C07/", "C20/through-foca/"), v.msg)),
     }
